@@ -489,3 +489,5 @@ m('c14-r7-fast-path-before-mark', 'C14', 'C14-R7', 'every-path:taiko', diff='sel
 m('c02-r1b-guard-over-converted-map', 'C02', 'C02-R1b', 'mania:gradual_difficulty:guard:apply_hold_off_to_beatmap', diff='selftest/seed_diffs/C02-7.diff')
 m('c08-r5-legacy-fast-path-in-calculator', 'C08', 'C08-R5', 'inspects:osu::performance::calculator::ModFlags::new', diff='selftest/seed_diffs/C08-7.diff')
 m('c10-r7-sync-only-shortcut', 'C10', 'C10-R7', '[sync]wrapper:util::sync::inner::position_from', diff='selftest/seed_diffs/C10-7.diff')
+m('c16-r8-speed-skipped-with-relax', 'C16', 'C16-R8', 'fed-alike:osu::difficulty::skills::OsuSkills::process', diff='selftest/seed_diffs/C16-7.diff')
+m('c15-r11-private-stop-flag', 'C15', 'C15-R11', 'none-from-inner:OsuGradualPerformance', diff='selftest/seed_diffs/C15-7.diff')
